@@ -85,7 +85,7 @@ Fields(N, n) == Pairs(Children(N, n))
 
 KindCode(t) == CASE t = "null" -> 0 [] t = "false" -> 1 [] t = "true" -> 2 [] t = "num" -> 3
                  [] t = "str" -> 4 [] t = "arr" -> 5 [] t = "obj" -> 6 [] OTHER -> 99
-Kind(N, n) == IF n = None THEN None ELSE KindCode(Nd(N, n).t)
+Kind(N, n) == IF n = None THEN None ELSE IF ~IsNode(N, n) THEN 98 ELSE KindCode(Nd(N, n).t)
 
 \* i-th element (0-based); i < 0 stands for an index >= 2^30
 GetAt(N, n, i) ==
